@@ -293,6 +293,9 @@ func CheckC11(e *Env) int {
 	// every order in which one consumer can ask for the interface(s), the concrete type and the
 	// concrete type's own input
 	legal = append(legal, bindOrderFamily("bo", e.Seed, e.tierN(4, 1))...)
+	// nothing to construct: the injector's result is the parameter an interface binding
+	// designates, not another parameter that also implements the interface
+	legal = append(legal, passThroughArgsFamily()...)
 	// how the two arguments of Bind are spelled does not matter, only their types do: two
 	// thirds of the programs (legal and illegal) use typed nil pointers instead of new(...)
 	respell := func(k int, p *Program) {
